@@ -2025,9 +2025,78 @@ static void lpAssign()
       printf("LPASSIGN %s\n", WTERMSIG(st) == SIGALRM ? "hang" : "crash");
 }
 
+// ---------------------------------------------------------------------------------------------------------
+// SSVectorBase::assign2productShort with a result that fills every position (the index array is full) while further terms hit
+// positions already in use: nothing may be written behind the index array.  dim = 14 makes the index array a 56-byte block
+// whose end is the heap chunk's end, so that a write behind it is seen by glibc when the vector is freed.
+// ---------------------------------------------------------------------------------------------------------
+static void a2pShort()
+{
+   fflush(stdout);
+   pid_t pid = fork();
+
+   if(pid == 0)
+   {
+      alarm(20);
+      bool ok = true;
+
+      for(int rep = 0; rep < 200 && ok; rep++)
+      {
+         const int dim = 14;
+         auto tol = std::make_shared<Tolerances>();
+         SVSetBase<double> A;
+         std::vector<std::vector<double>> dense(dim, std::vector<double>(dim, 0.0));
+
+         for(int k = 0; k < dim; k++)
+         {
+            DSVectorBase<double> v;
+
+            for(int i = 0; i < dim; i++)
+               if((i + k + rep) % 3 != 0 || i == k)
+               {
+                  double a = 1.0 + ((i * 7 + k * 3 + rep) % 5);
+                  v.add(i, a);
+                  dense[k][i] = a;
+               }
+
+            A.add(v);
+         }
+
+         SSVectorBase<double> x(dim, tol), r(dim, tol);
+         std::vector<double> want(dim, 0.0);
+
+         for(int k = 0; k < dim; k += 2)
+         {
+            x.setValue(k, 1.0 + k);
+
+            for(int i = 0; i < dim; i++)
+               want[i] += (1.0 + k) * dense[k][i];
+         }
+
+         x.setup();
+         r.assign2productShort(A, x);
+
+         for(int i = 0; i < dim && ok; i++)
+            ok = std::fabs(r[i] - want[i]) <= 1e-9 * (1.0 + std::fabs(want[i]));
+      }
+
+      printf("A2PSHORT %s\n", ok ? "ok" : "wrong");
+      fflush(stdout);
+      _exit(0);
+   }
+
+   int st = 0;
+   waitpid(pid, &st, 0);
+
+   if(WIFSIGNALED(st))
+      printf("A2PSHORT %s\n", WTERMSIG(st) == SIGALRM ? "hang" : "crash");
+}
+
 int main(int argc, char** argv)
 {
-   if(argc >= 2 && !strcmp(argv[1], "lpassign"))
+   if(argc >= 2 && !strcmp(argv[1], "a2pshort"))
+      a2pShort();
+   else if(argc >= 2 && !strcmp(argv[1], "lpassign"))
       lpAssign();
    else if(argc >= 2 && !strcmp(argv[1], "hashprimes"))
       hashPrimes();
